@@ -197,12 +197,11 @@ theorem C05_string_displacement_vertical (f : Font) (M : Matrix) (gs : GS) (y x 
             (wsOf f gs) gs.Trise gs.fill x y codes).2) :=
   renderCodesV_showCodes f M gs x codes hv hm y
 
-/-- Type 3 fonts: the scales pdfminer takes from the FontMatrix are its `a` and `d` entries, i.e. a
-glyph-space displacement `(w, 0)` becomes `w·a` in text space (9.6.5) whatever the skew terms are. -/
-theorem C05_type3_scale (a b c d e f : Rat) :
-    type3_hscale (a, b, c, d, e, f) = a ∧ type3_vscale (a, b, c, d, e, f) = d := by
-  simp only [type3_hscale, type3_vscale, apply_matrix_norm]
-  constructor <;> grind
+/-- Type 3 fonts: the scales pdfminer takes from the FontMatrix (`apply_matrix_norm`, regenerated
+from `PDFType3Font.__init__`) are its `a` and `d` entries, i.e. a glyph-space displacement `(w, 0)`
+becomes `w·a` in text space (9.6.5) whatever the skew terms are; all other fonts use 1/1000. -/
+theorem C05_font_scale (f : Font) : fontHScale f = f.hscale ∧ fontVScale f = f.vscale :=
+  fontScale_eq f
 
 /-- The glyph `LTChar.__init__` builds is the glyph of the text model: matrix `Tm × CTM`,
 advance `w0·Tfs·Th` (vertical writing: `w1·Tfs`), the glyph box under that matrix — for simple,
@@ -258,10 +257,10 @@ theorem C05_budget_suffices (env : Env) (hr : Ranked env) (fuel : Nat) (hfuel : 
 
 /-! ## Non-vacuity: the hypotheses are met by non-trivial instances -/
 
-private def exFont : Font := ⟨"VfD0", 32, [250, 500, 504, 508], 300, -200, 1 / 1000, 1 / 1000, false, false, [], 880⟩
+private def exFont : Font := ⟨"VfD0", 32, [250, 500, 504, 508], 300, -200, none, false, false, [], 880⟩
 
 /-- An Identity-V CID font: w1y = −1000 for CIDs 1–2 (position vector (500, 880)), DW2 = [880 −900]. -/
-private def exFontV : Font := ⟨"VfV0", 1, [-1000, -1000], -900, -120, 1 / 1000, 1 / 1000, true, true, [(500, 880), (500, 880)], 880⟩
+private def exFontV : Font := ⟨"VfV0", 1, [-1000, -1000], -900, -120, none, true, true, [(500, 880), (500, 880)], 880⟩
 
 /-- A form that relies on what it inherits (font, size, fill colour): `BT 1 2 Td (!) Tj ET`. -/
 private def exFormProg : List Instr :=
@@ -308,6 +307,14 @@ example : (TextModel.runPage exEnv 3 MATRIX_IDENTITY exRes
     = some [(0, 0, -10), (0, -8, -9), (0, -16, -10)] := by decide +kernel
 
 example : exFontV.vertical = true ∧ exFontV.multibyte = true := by decide
+
+/-- A Type 3 font with a skewed FontMatrix `[1/512 0 1/1024 1/1024 0 0]`: width 512 advances by
+`512·(1/512)·Tfs = 8` at size 8, however large the skew term `c` is. -/
+example : (TextModel.runPage ⟨[⟨"VfT1", 65, [512, 1024], 0, -128, some (1/512, 0, 1/1024, 1/1024, 0, 0), false, false, [], 880⟩], []⟩
+      1 MATRIX_IDENTITY ⟨[("T3", 0)], []⟩
+      [⟨.BT, []⟩, ⟨.Tf, [.name "T3", .num 8]⟩, ⟨.Tj, [.str [65, 66]]⟩, ⟨.ET, []⟩]).map
+      (fun l => l.map (fun g => (g.m.2.2.2.2.1, g.adv)))
+    = some [(0, 8), (8, 16)] := by decide +kernel
 
 private def asciiBytes (s : String) : Bytes := s.toList.map (fun c => UInt8.ofNat c.toNat)
 
